@@ -52,7 +52,7 @@ CHECKS.update({
         "quick": T(50000, 60), "thorough": T(2000000, 900),
         "rule": "one run = generated world + config bytes (structured generator, byte-level mutation of it, or boundary-directed: tag lengths 95..900, message = limit-1/0/+1, output ':' forms, short syslog names, huge numbers, ident/path near their limits, 1 MiB limits, lines around 1024 bytes) + 1-2 wrapped execs under ASan+UBSan; "
                 "oracle = sanitizer report, fatal signal, step cap / watchdog, exec not reached; non-trivial = non-empty config; distinct = (options present, tag-count bucket, boundary probe, env/tty class, size bucket)",
-        "probes": ["tag_ge_100", "msg_eq_limit", "environ_null", "limit_1mib", "line_ge_1024", "output_colon", "short_syslog_name", "huge_number", "ident_near_256", "path_near_max"],
+        "probes": ["tag_ge_100", "msg_eq_limit", "environ_null", "limit_1mib", "line_ge_1024", "output_colon", "short_syslog_name", "huge_number", "ident_near_256", "path_near_max", "errlog_at_limit"],
         "assumptions": ["no schedule or fault dimension: seeded generation against a sanitizer oracle inside the simulated OS (weak fit, DESIGN 3/C02)"],
     },
     "C05": {
@@ -72,8 +72,8 @@ CHECKS.update({
     },
     "C07": {
         "variants": ["asan-ts"], "level": "exploration",
-        "quick": T(30000, 45), "thorough": T(400000, 600),
-        "rule": "one run = a chain, a seeded permutation and a seeded duplication of it, each logged once in the same world; the first 22608 seeds enumerate all chains of <= 3 elements over a 12-spec alphabet x 12 worlds (3 real uids x tty yes/no x listed ancestor yes/no), later seeds draw chains of 0-20 elements from the grammar in generated worlds; "
+        "quick": T(60000, 60), "thorough": T(400000, 600),
+        "rule": "one run = a chain, a seeded permutation and a seeded duplication of it, each logged once in the same world; the first 52416 seeds enumerate all chains of <= 3 elements over a 16-spec alphabet (incl. bare argument-taking names and empty elements) x 12 worlds (3 real uids x tty yes/no x listed ancestor yes/no), later seeds draw chains of 0-20 elements from the grammar in generated worlds; "
                 "non-trivial = at least one known filter; distinct = (per-element filter+result string, world class, decision)",
         "probes": ["exhaustive_alphabet", "unknown_between_known", "drop_by_later_element", "empty_elements"],
         "seed": 0,
@@ -114,7 +114,7 @@ MANIFEST_TEXT.update({
     "C02": {"level_text": "seeded generation of configuration bytes, exec inputs and simulated process states against a sanitizer oracle: the production library runs in-process under AddressSanitizer+UndefinedBehaviorSanitizer in both the thread-safe and the non-thread-safe build; a report, fatal signal, step-cap/watchdog hit or an exec that is never reached is a violation", "level_note": _ASSUME + "; allocation failure and invalid pointers are outside the domain"},
     "C05": {"level_text": "operation-by-operation refinement against the reference expansion (DESIGN A.4) with boundary-directed limits and value lengths; exact equality when the expansion fits, the two length bounds otherwise; also the syslog ident (255) and file path template (PATH_MAX-1)", "level_note": _ASSUME},
     "C06": {"level_text": "seeded histories of calls in one simulated process (both builds): each record equals the model for its own call and never contains the marker of an earlier call; truncated cmdline must be a prefix", "level_note": _ASSUME},
-    "C07": {"level_text": "exhaustive for all chains of <= 3 elements over a 12-spec alphabet in 12 worlds, seeded beyond: logged iff every known filter passes in the model, same decision for a permutation and a duplication, no byte at any sink on drop, pass-through intact", "level_note": _ASSUME},
+    "C07": {"level_text": "exhaustive for all chains of <= 3 elements over a 16-spec alphabet in 12 worlds, seeded beyond: logged iff every known filter passes in the model, same decision for a permutation and a duplication, no byte at any sink on drop, pass-through intact", "level_note": _ASSUME},
     "C08": {"level_text": "refinement of the library's option-value API and of the logged record against the reference INI/option model over generated files; round trip through the reported values", "level_note": _ASSUME + "; lines beyond the parser's 1023-byte limit belong to C02's domain only"},
     "C12": {"level_text": "every data source named in the statement is compared with the value computed from the simulated process state, over generated states a root test machine is never in (uid != euid != gid != egid, ids without names, any tty owner, any ancestor chain, any instant and TZ)", "level_note": _ASSUME},
     "C14": {"level_text": "pass/drop of only_uid, exclude_uid, only_root compared with exact membership of the simulated real uid, for boundary uids, near-miss lists and unrelated effective uids; complementarity checked directly", "level_note": _ASSUME},
@@ -160,9 +160,9 @@ CHECKS.update({
     "C11": {
         "variants": ["asan-ts", "asan-nots"], "level": "exploration",
         "quick": T(8000, 70), "thorough": T(150000, 900),
-        "rule": "one run = history of 2-8 (thorough: 2-30) calls in one simulated process; before each call the config file is rewritten (each option present with probability 1/2, valid and invalid values), emptied, corrupted, deleted, made unreadable or left alone; "
+        "rule": "one run = history of 2-8 (thorough: 2-30) calls in one simulated process; before each call the config file is rewritten (each option present with probability 1/2, valid and invalid values), emptied, corrupted, damaged (rejected lines next to accepted options), deleted, made unreadable or left alone; "
                 "oracle = differential: call k is re-run as the first call of a pristine library image (.data/.bss restored) in the same simulated OS state and must produce the same records at the same sinks; ASan for double frees; library-attributed live heap must not grow. non-trivial = at least 2 calls; distinct = sequence of config classes",
-        "probes": ["deleted", "unreadable", "corrupted", "emptied"],
+        "probes": ["deleted", "unreadable", "corrupted", "emptied", "damaged_with_valid_options"],
     },
     "C17": {
         "variants": ["asan-ts"], "level": "exploration",
